@@ -1,10 +1,283 @@
 import DiscretModel.Model.Proto
-/- C19 model — placeholder driver hooks (filled in below) -/
+/-
+Model of the connection handshake and of the invitation / token table (C19):
+`LocalPeerService::initialise_connection` (peer_inbound_service.rs:146-228), `IdentityAnswer::verify`
+(synchronisation/mod.rs:80-91), `Peer::validate` (system_entities.rs:185-198), the token table of
+`PeerManager` (`get_token_type`, `create_invite`, `accept_invite`, `invite_accepted`,
+peer_manager.rs:549-717) and `MeetingSecret::token` (security.rs:309-330).
+
+Idealised cryptography: a signature is the pair (signer, message); the key agreement is exponentiation
+(`pub a = g^a`, `dh a P = P^a`), the token hash is injective on the agreed secret (no truncation: the
+56-bit truncation of the real token is NOT modelled). Import-free (core Lean only).
+-/
 namespace Discret.Handshake
+
+abbrev Key := Nat
+abbrev Chal := Nat          -- a challenge (32 random bytes)
+
+structure Sig where
+  signer : Key
+  msg : Nat
+deriving DecidableEq, Repr
+
+def sigValid (k : Key) (m : Nat) (s : Sig) : Bool := s.signer == k && s.msg == m
+
+/-- the message signed for an invitation: `hash(invite_id ++ application)`; injective pairing -/
+def inviteHash (id app : Nat) : Nat := (id + app) * (id + app + 1) / 2 + app + 1000000
+
+/-- challenges and invitation digests live in disjoint ranges of the model's message space -/
+def chalMsg (c : Chal) : Nat := c
+
+structure Invite where
+  id : Nat
+  app : Nat
+  sign : Sig
+deriving DecidableEq, Repr
+
+/-- what the meeting token used by the remote side maps to (peer_manager.rs `TokenType`) -/
+inductive TokenType where
+  | allowedPeer (expected : Key)
+  | ownedInvite (id : Nat)
+  | invite (inv : Invite)
+deriving DecidableEq, Repr
+
+/-- the remote side's reply to `ProveIdentity(challenge)` -/
+structure Proof where
+  key : Key            -- verifying key of the peer row it presents
+  rowValid : Bool      -- `Peer::validate`: room-less `sys.Peer` row, correctly signed, with a public key
+  sig : Sig            -- `chall_signature`
+deriving DecidableEq, Repr
+
+inductive Event where
+  | ready | readyFingerprint
+deriving DecidableEq, Repr
+
+inductive Msg where      -- messages to the peer service
+  | connected (k : Key)
+  | inviteAccepted (tt : TokenType) (k : Key)
+deriving DecidableEq, Repr
+
+inductive Result where
+  | ok (b : Bool)        -- `Ok(true)` / `Ok(false)` (silent failure: the caller disconnects)
+  | err                  -- `Err(_)`: logged, the caller disconnects
+deriving DecidableEq, Repr
+
+structure Outcome where
+  res : Result
+  bound : Option Key     -- `remote_verifying_key` after the call
+  connReady : Bool       -- `conn_ready` after the call (true before)
+  events : List Event    -- sent to the remote side
+  msgs : List Msg        -- sent to the peer service
+deriving DecidableEq, Repr
+
+def fail (r : Result) : Outcome := { res := r, bound := none, connReady := true, events := [], msgs := [] }
+
+/-- `initialise_connection`. `reply = none`: no usable answer (error answer, closed channel, undecodable
+    bytes, timeout). -/
+def initialise (localKey : Key) (tt : TokenType) (challenge : Chal) (reply : Option Proof) : Outcome :=
+  match reply with
+  | none => fail (.ok false)
+  | some p =>
+    if !sigValid p.key (chalMsg challenge) p.sig then fail .err
+    else if !p.rowValid then fail .err
+    else
+      match tt with
+      | .allowedPeer expected =>
+        if expected ≠ p.key then fail .err
+        else if localKey = p.key then
+          { res := .ok true, bound := some p.key, connReady := false, events := [.readyFingerprint], msgs := [] }
+        else
+          { res := .ok true, bound := some p.key, connReady := true, events := [.ready], msgs := [.connected p.key] }
+      | .ownedInvite _ =>
+        { res := .ok true, bound := some p.key, connReady := true, events := [.ready],
+          msgs := [.inviteAccepted tt p.key, .connected p.key] }
+      | .invite inv =>
+        if !sigValid p.key (inviteHash inv.id inv.app) inv.sign then fail .err
+        else
+          { res := .ok true, bound := some p.key, connReady := true, events := [.ready],
+            msgs := [.inviteAccepted tt p.key, .connected p.key] }
+
+/-! ### the token table -/
+
+/-- a meeting token: derived from an invitation id, or agreed with a peer (by its meeting public key) -/
+inductive Token where
+  | derived (inviteId : Nat)
+  | agreed (secret : Nat)
+deriving DecidableEq, Repr
+
+/-- key agreement: exponentiation in a commutative monoid -/
+def g : Nat := 2
+def pubOf (a : Nat) : Nat := g ^ a
+def dh (a : Nat) (p : Nat) : Nat := p ^ a
+
+/-- `MeetingSecret::token`: the own public key maps to a hash of the secret itself -/
+def token (a : Nat) (theirPub : Nat) : Nat :=
+  if theirPub = pubOf a then 2 * a + 1 else 2 * dh a theirPub
+
+structure Defects where
+  /-- `invite_accepted` removes the consumed invitation from the entry of the NEW PEER's token instead
+      of the invitation's token (peer_manager.rs:680-717): it stays reachable until restart -/
+  inviteRemovedUnderPeerToken : Bool
+deriving DecidableEq, Repr
+
+def Defects.asImplemented : Defects := { inviteRemovedUnderPeerToken := true }
+def Defects.none : Defects := { inviteRemovedUnderPeerToken := false }
+
+/-- `allowed_token : HashMap<MeetingToken, Vec<TokenType>>` as the list of its (token, entry) pairs in
+    insertion order (per token the order is the vector's) -/
+abbrev Table := List (Token × TokenType)
+
+/-- `get_token_type(token, key)` -/
+def lookup (t : Table) (tok : Token) (key : Key) : Option TokenType :=
+  ((t.filter (·.1 = tok)).map (·.2)).find? fun tt =>
+    match tt with
+    | .allowedPeer e => e = key
+    | _ => true
+
+def inviteIdOf : TokenType → Option Nat
+  | .ownedInvite id => some id
+  | .invite inv => some inv.id
+  | .allowedPeer _ => none
+
+def sameInvite (tt x : TokenType) : Bool :=
+  match tt, x with
+  | .ownedInvite a, .ownedInvite b => a == b
+  | .invite a, .invite b => a.id == b.id
+  | _, _ => false
+
+/-- remove the first entry under `tok` that is the invitation `tt` -/
+def removeFirst (tok : Token) (tt : TokenType) : Table → Table
+  | [] => []
+  | e :: rest => if e.1 = tok ∧ sameInvite tt e.2 then rest else e :: removeFirst tok tt rest
+
+def createInvite (t : Table) (id : Nat) : Table := t ++ [(.derived id, .ownedInvite id)]
+
+/-- `accept_invite`: refused for another application -/
+def acceptInvite (app : Nat) (t : Table) (inv : Invite) : Option Table :=
+  if inv.app ≠ app then none else some (t ++ [(.derived inv.id, .invite inv)])
+
+/-- `invite_accepted(token_type, peer)`: the new peer becomes an allowed peer under the pairwise token,
+    the invitation is removed -/
+def inviteAccepted (d : Defects) (t : Table) (tt : TokenType) (peerKey : Key) (peerTok : Token) : Table :=
+  let t1 := t ++ [(peerTok, .allowedPeer peerKey)]
+  match inviteIdOf tt with
+  | none => t1
+  | some id => removeFirst (if d.inviteRemovedUnderPeerToken then peerTok else .derived id) tt t1
+
+/-- the invitation `id` can still be reached through some token -/
+def reachable (t : Table) (id : Nat) : Bool := t.any fun e => inviteIdOf e.2 == some id
+
+/-! ### driver (shared with the harness op files, see harness/serve/src/c19.rs) -/
 namespace Drv
+open Discret.Proto
+
 structure St where
-  dummy : Nat
-def start (_ : List String) : Option St := some ⟨0⟩
-def stepOp (s : St) (_ : String) (_ : List String) : St × String := (s, "bad-op")
+  app : Nat
+  table : Table
+  chal : Nat                         -- next fresh challenge
+  recorded : List (Nat × Sig)        -- conn -> signature of its challenge by the honest remote
+
+def start (toks : List String) : Option St :=
+  some { app := (nat? toks "app").getD 1, table := [], chal := 1, recorded := [] }
+
+def fmtKey : Option Key → String
+  | some k => toString k
+  | none => "-"
+
+def fmtOutcome (o : Outcome) : String :=
+  let res := match o.res with | .ok true => "true" | .ok false => "false" | .err => "err"
+  let ev := match o.events with | [.ready] => "Ready" | [.readyFingerprint] => "ReadyFingerprint" | [] => "-" | _ => "?"
+  let ms := o.msgs.map fun m => match m with
+    | .connected k => s!"connected:{k}"
+    | .inviteAccepted _ k => s!"accepted:{k}"
+  let ms := if ms.isEmpty then "-" else joinWith "," ms
+  s!"res={res} key={fmtKey o.bound} ready={if o.connReady then 1 else 0} events={ev} msgs={ms}"
+
+def tokenOf (toks : List String) : Option Token :=
+  match kv? toks "tok" with
+  | some s => match s.splitOn ":" with
+    | ["inv", n] => n.toNat?.map Token.derived
+    | ["peer", k] => k.toNat?.map Token.agreed
+    | _ => none
+  | none => none
+
+def fmtTT : Option TokenType → String
+  | some (.allowedPeer k) => s!"allowed {k}"
+  | some (.ownedInvite n) => s!"owned {n}"
+  | some (.invite inv) => s!"invite {inv.id}"
+  | none => "none"
+
+def stepOp (s : St) (kind : String) (toks : List String) : St × String :=
+  match kind with
+  | "hs" =>
+    -- every connection draws a fresh challenge
+    let c := s.chal
+    let s1 := { s with chal := s.chal + 1 }
+    let tt : Option TokenType := match kv? toks "tt" with
+      | some "allowed" => (nat? toks "exp").map TokenType.allowedPeer
+      | some "owned" => (nat? toks "inv").map TokenType.ownedInvite
+      | some "invite" =>
+        match nat? toks "inv", nat? toks "signer", nat? toks "app", nat? toks "signapp" with
+        | some n, some k, some a, some sa => some (.invite ⟨n, a, ⟨k, inviteHash n sa⟩⟩)
+        | _, _, _, _ => none
+      | _ => none
+    match tt, nat? toks "conn", nat? toks "local", kv? toks "remote" with
+    | some tt, some conn, some loc, some remote =>
+      let reply : Option (Option Proof) := match remote with
+        | "honest" => (nat? toks "key").map fun k => some ⟨k, true, ⟨k, chalMsg c⟩⟩
+        | "wrongkey" => match nat? toks "key", nat? toks "signer2" with
+          | some k, some k2 => some (some ⟨k, true, ⟨k2, chalMsg c⟩⟩) | _, _ => none
+        | "replay" => match nat? toks "key", nat? toks "from" with
+          | some k, some m => match s.recorded.find? (·.1 = m) with
+            | some r => some (some ⟨k, true, r.2⟩)
+            | none => none
+          | _, _ => none
+        | "badrow" => (nat? toks "key").map fun k => some ⟨k, false, ⟨k, chalMsg c⟩⟩
+        | "noanswer" => some none
+        | _ => none
+      match reply with
+      | none => (s, "bad-op")
+      | some r =>
+        let o := initialise loc tt c r
+        let rec' := match remote, nat? toks "key" with
+          | "honest", some k => (conn, (⟨k, chalMsg c⟩ : Sig)) :: s1.recorded
+          | _, _ => s1.recorded
+        ({ s1 with recorded := rec' }, fmtOutcome o)
+    | _, _, _, _ => (s, "bad-op")
+  | "pm-invite" =>
+    match nat? toks "n" with
+    | some n => if reachable s.table n then (s, "bad-op") else ({ s with table := createInvite s.table n }, "ok")
+    | none => (s, "bad-op")
+  | "pm-lookup" =>
+    match tokenOf toks, nat? toks "key" with
+    | some tok, some k => (s, fmtTT (lookup s.table tok k))
+    | _, _ => (s, "bad-op")
+  | "pm-accepted" =>
+    match nat? toks "inv", nat? toks "peer" with
+    | some n, some k =>
+      match lookup s.table (.derived n) k with
+      | some tt =>
+        if (inviteIdOf tt).isSome then
+          ({ s with table := inviteAccepted Defects.asImplemented s.table tt k (.agreed k) }, "ok")
+        else (s, "bad-op")
+      | none => (s, "no-token")
+    | _, _ => (s, "bad-op")
+  | "pm-accept" =>
+    match kv? toks "src" with
+    | some "forged" =>
+      match nat? toks "id", nat? toks "app", nat? toks "signer" with
+      | some n, some a, some k =>
+        match acceptInvite s.app s.table ⟨n, a, ⟨k, inviteHash n a⟩⟩ with
+        | some t => ({ s with table := t }, "ok")
+        | none => (s, "err:app")
+      | _, _, _ => (s, "bad-op")
+    | some "bytes" => (s, "err:decode")
+    | _ => (s, "bad-op")
+  | "tok-sym" =>
+    match nat? toks "a", nat? toks "b" with
+    | some a, some b => (s, if token a (pubOf b) = token b (pubOf a) then "sym 1" else "sym 0")
+    | _, _ => (s, "bad-op")
+  | _ => (s, "bad-op")
+
 end Drv
 end Discret.Handshake
